@@ -48,6 +48,9 @@ def parse(text=None):
             cur["types"][m.group(1).lower()] = re.sub(r"\s+", "", m.group(2).lower())
             continue
         clean = re.sub(r'"[^"]*"', '""', line)
+        clean = re.sub(r"\(\*.*?(\*\)|$)", " ", clean)          # a remark calls nothing
+        if re.match(r"(?i)^\s*rem\b", clean):
+            clean = ""
         for rm in re.finditer(r'(?i)\brun\s+(\w+)\s*', clean):
             j = rm.end()
             args = ""
